@@ -162,10 +162,16 @@ def arm_threshold(ctx, sample):
     for (k, d, b, forced) in ctx.trace:
         if k[0] == "pred" and k[1] == "is_zero" and b:
             return Fr(0)
-        if k[0] == "cmp" and k[1] in ("<", "<=") and b:
-            rhs = cache.get(k[3])
-            lhs = cache.get(k[2])
-            if rhs is None or lhs is None:
+        if k[0] == "cmp" and k[1] == "==" and b:
+            lhs, rhs = cache.get(k[2]), cache.get(k[3])
+            if lhs is not None and rhs is not None:
+                for u, v in ((lhs, rhs), (rhs, lhs)):
+                    if v.const_value() == 0 and XA in u.atoms_deep():
+                        return Fr(0)
+        if k[0] == "cmp" and k[1] in ("<", "<="):
+            from .c15 import oriented
+            lhs, op, rhs, b = oriented(k, b)
+            if not b or rhs is None or lhs is None:
                 continue
             c = rhs.const_value()
             if c is None:
